@@ -277,6 +277,6 @@ func init() {
 		Enumerate:   c01Enumerate,
 		Run:         c01Run,
 		CaseTimeout: 60 * time.Second,
-		Budget:      map[string]time.Duration{"quick": 150 * time.Second, "thorough": 40 * time.Minute},
+		Budget:      map[string]time.Duration{"quick": 400 * time.Second, "thorough": 40 * time.Minute},
 	})
 }
